@@ -640,6 +640,62 @@ def State.observe (s : State) (univ pns : List Ref) (fuel : Nat) : Option Obs :=
 def observeReload (rows : SMap Bytes) (univ pns : List Ref) (fuel : Nat) : Obs :=
   Pk.Index.observe univ pns fuel (delsOfRows rows) (Corpus.load rows)
 
+/-! ## transient failures of the index's sorted.KeyValue (C06: "at any point in any history") -/
+
+/-- which call of the store fails while one blob is received: the CommitBatch of the blob's mutation
+map (receive.go:320), the direct `Set` of its `missing|` row (index.go:1875 noteNeededLocked), or every
+direct `Delete` (receive.go:175/198: the error is only logged) -/
+inductive Fault where
+  | commit | set | delete
+deriving DecidableEq, Repr
+
+/-- noteBlobIndexedLocked when the store's Delete fails: the maps are updated, the rows stay -/
+def State.noteBlobIndexedNoDel (s : State) (br : Ref) : State := { s.noteBlobIndexed br with rows := s.rows }
+
+def State.commitAllNoDel (s : State) (b : Ref) (mm : List Row) (resumed : Bool) : State :=
+  (((s.commit mm).corpusAdd b mm resumed).noteBlobIndexedNoDel b)
+
+/-- ReceiveBlob under a fault: the new state and whether ReceiveBlob reported success. A failed Set or
+CommitBatch makes ReceiveBlob return the error before the corpus, the deletes cache and the maps are
+touched; only the `missing|` row (and `needs` entry) that populateDeleteClaim notes *before* the commit
+survives a failed commit of a partial pass. -/
+def State.receiveFault (W : World) (s : State) (b : Ref) (f : Fault) : State × Bool :=
+  if indexedVal (SMap.get s.rows (kHave b)) then (s, true)
+  else
+    let resumed := (SMap.get s.rows (kHave b)).isSome
+    match firstMissing W s.src b with
+    | some m => if f = .set then (s, false) else (s.noteNeeded b m, true)
+    | none =>
+      match idep W b with
+      | some t =>
+        match s.metaType t with
+        | none =>
+          match f with
+          | .set => (s, false)
+          | .commit => (s.noteNeeded b t, false)
+          | .delete => ((s.noteNeeded b t).commitAllNoDel b (partialRows W b) resumed, true)
+        | some tt =>
+          match f with
+          | .commit => (s, false)
+          | .set => ((s.commitAll b (fullRowsAt W b tt) resumed).removeAllMissingEdges b, true)
+          | .delete => (s.commitAllNoDel b (fullRowsAt W b tt) resumed, true)
+      | none =>
+        match f with
+        | .commit => (s, false)
+        | .set => ((s.commitAll b (fullRows W b) resumed).removeAllMissingEdges b, true)
+        | .delete => (s.commitAllNoDel b (fullRows W b) resumed, true)
+
+/-- the re-index queue while every Delete fails -/
+def State.drainNoDel (W : World) : Nat → State → State
+  | 0, s => s
+  | n + 1, s =>
+    match s.ready with
+    | [] => s
+    | b :: _ =>
+      if s.src.contains b then
+        State.drainNoDel W n (({ s with ready := s.ready.filter (fun x => x != b) }).receiveFault W b .delete).1
+      else s
+
 /-! ## the pre-fix code, for the counterexamples -/
 namespace Old
 
